@@ -303,7 +303,8 @@ def thPseudo (k : ObsKind) (p : Option Ops) (t : Th) : Th × List Obs :=
   | none => (t, [])
   | some o =>
     ({ set := applyOps false t.set t.next t.ids o, ids := t.next :: t.ids, next := t.next + 1 },
-     [⟨k, (applyOps false t.set t.next t.ids o).values⟩])
+     (if o.listItem then [⟨.marker, (applyOps false t.set t.next t.ids o).values⟩] else [])
+       ++ [⟨k, (applyOps false t.set t.next t.ids o).values⟩])
 
 /-- the initial threaded state (the renderer defines `footnote` for the document) -/
 def th0 : Th := { set := [⟨"footnote", 0, 0⟩], ids := [0], next := 1 }
